@@ -21,6 +21,10 @@ import (
 type Violation struct {
 	Class  string `json:"class"`
 	Detail string `json:"detail"`
+	// Uncontrolled marks a violation found in an explicitly non-deterministic companion mode
+	// (race detector, real sockets): it is not minimised and its replay re-runs the scenario a
+	// few times, reproducing the class, not the schedule.
+	Uncontrolled bool `json:"uncontrolled,omitempty"`
 }
 
 func Violatef(class, format string, a ...any) *Violation {
@@ -213,7 +217,7 @@ type ReplayFile struct {
 	// tape is regenerated from (seed, run) instead of being replayed.
 	Crash    bool `json:"crash,omitempty"`
 	Generate bool `json:"generate,omitempty"`
-	OrigTape  int       `json:"original_tape_len"`
+	OrigTape int  `json:"original_tape_len"`
 }
 
 // Known findings ------------------------------------------------------------------------
